@@ -79,6 +79,8 @@ def frame_filter(frame):
         st = getattr(slf, "_state", None)
         if isinstance(getattr(st, "_lock", None), sched.CoopRLock) or isinstance(getattr(slf, "_lock", None), sched.CoopRLock):
             return True
+        if frame.f_code.co_name == "__init__":
+            return False  # under construction: not yet visible to another thread
         # a Delay that holds no REAL lock is safe to park in as well (an implementation may create its lock late: the window
         # before the lock exists is exactly where a check-then-act race would sit)
         return not any(_is_real_lock(getattr(o, "_lock", None)) for o in (slf, st) if o is not None)
